@@ -307,6 +307,8 @@ var planNames = []string{
 	"cancel-scheduled",       // Cancel while the task waits in the schedule
 	"sched-after-queued-run", // a task that ran via the queue is later only scheduled and comes due while a queued task runs
 	"sched-order",            // sequential re-scheduling of listed tasks: the schedule stays sorted
+	"cancelled-rescheduled",  // a cancelled task that is still listed gets an earlier time (no re-sort, no wake-up of the handler)
+	"zero-exposure",          // stress: Schedule(zero)/Schedule(+10s) on the head of the schedule while the handler is kept busy
 	"same-instant",           // two tasks scheduled for the identical time value
 	"unschedule-queued",      // Schedule(zero) on a task that waits in the queue behind a running task
 	"stale-queue-pop",        // queue handler parked between popping the task and locking it; the overdue path runs the task meanwhile
